@@ -310,7 +310,7 @@ def load_known():
 class Check:
     """One run of one property's check."""
 
-    def __init__(self, pid, tier, seed):
+    def __init__(self, pid, tier, seed, keep_replays=False):
         self.pid, self.tier, self.seed = pid, tier, seed
         self.t0 = time.time()
         self.rng = random.Random(seed)
@@ -325,7 +325,7 @@ class Check:
         os.makedirs(os.path.join(VERIF, 'replays'), exist_ok=True)
         os.makedirs(os.path.join(VERIF, 'evidence'), exist_ok=True)
         for f in os.listdir(os.path.join(VERIF, 'replays')):       # replays of earlier runs of this property
-            if f.startswith(pid + '-'):
+            if f.startswith(pid + '-') and not keep_replays:
                 try:
                     os.remove(os.path.join(VERIF, 'replays', f))
                 except OSError:
